@@ -61,12 +61,18 @@ class Model:
 
   # ---- projection
   def content(self, c) -> dict:
+    """Projection of the real container into a value record (a constant key that is absent is reported as
+    holding the missing-value marker: the two are the same state of a partial value)."""
     if self.kind == 'list':
       return vs.encode(c)
     if self.kind == 'dict':
-      return vs.encode(c)
-    kvs = sorted((vs.key_code(k), vs.encode(c.sym_getattr(k))) for k in c.sym_keys())
-    return vs.V('dict', 0, [[k, v] for k, v in kvs])
+      kvs = dict((vs.key_code(k), vs.encode(v)) for k, v in c.sym_items())
+    else:
+      kvs = dict((vs.key_code(k), vs.encode(c.sym_getattr(k))) for k in c.sym_keys())
+    for k, _ in self.spec_rec['fields']:
+      if k != 0 and k not in kvs:
+        kvs[k] = vs.V('missing')
+    return vs.V('dict', 0, [[k, kvs[k]] for k in sorted(kvs)])
 
   def the_list(self, c):
     if self.kind == 'list':
@@ -213,10 +219,7 @@ def direct_clauses(m: Model, c, partial_ok: bool) -> List[str]:
     if not key_spec.is_const:
       continue
     k = str(key_spec)
-    if k not in keys:
-      bad.append('required_present')
-      continue
-    v = c.sym_getattr(k)
+    v = c.sym_getattr(k) if k in keys else pg.MISSING_VALUE
     if pg.MISSING_VALUE == v:
       if not partial_ok:
         bad.append('required_present')
@@ -275,8 +278,17 @@ def replay_behaviour(chk, m: Model, partial: bool, steps, hits: Dict[str, int], 
   c = m.make(st0['root'], partial)
   history = []
   got0 = m.content(c)
-  if _norm(got0) != _norm(st0['root']):
-    raise tlc.TLCError(f'initial content mismatch: spec {st0["root"]} impl {got0}')
+  init_detail = {'cfg': cfg, 'kind': m.kind, 'partial_ctor': partial, 'step': 0, 'call': ['Init'],
+                 'spec_content': repr(vs.mkvalue(st0['root'])), 'after': repr(vs.mkvalue(got0)), 'mirror': mirror,
+                 'behaviour': [{'act': ['Init'], 'out': 'ok', 'root': _thaw(st0['root']), 'pok': st0['pok'],
+                                'alts': [_thaw(st0['root'])]}]}
+  init_bad = sorted(set(direct_clauses(m, c, bool(st0['pok']))))
+  if init_bad or _norm(got0) != _norm(st0['root']):
+    # "after construction": the constructor is a write path as well
+    for cl in init_bad or ['stored_content']:
+      chk.violation({'action': 'Init', 'kind': m.kind, 'arg': 'value', 'clause': cl}, dict(init_detail, violated='Conforms'))
+    chk.traces += 1
+    return
   for n, step in enumerate(steps[1:], 1):
     st = step.state
     act = list(st['act'])
@@ -292,7 +304,11 @@ def replay_behaviour(chk, m: Model, partial: bool, steps, hits: Dict[str, int], 
               'before': repr(vs.mkvalue(before)), 'after': repr(vs.mkvalue(after)),
               'spec_out': st['out'], 'spec_content': repr(vs.mkvalue(st['root'])),
               'impl_outcome': 'ok' if exc is None else f'{type(exc).__name__}: {str(exc)[:160]}',
-              'history': history[-8:]}
+              'history': history[-8:],
+              'behaviour': [{'act': _thaw(s_.state['act']), 'out': s_.state['out'], 'root': _thaw(s_.state['root']),
+                             'pok': s_.state['pok'], 'alts': [_thaw(x) for x in s_.state['alts']]}
+                            for s_ in steps[:n + 1]],
+              'mirror': mirror}
     base_sig = {'action': name, 'kind': m.kind, 'arg': arg_class(m, act)}
     clauses = direct_clauses(m, c, bool(st['pok']))
     stop = False
@@ -383,3 +399,26 @@ def mirror_search(chk, cfg: str, kind: str, partial: bool, hits: Dict[str, int],
   chk.notes['mirror'] = {'violated': r.violated, 'calls': [_show(list(s.state['act'])) for s in steps[1:]]}
   replay_behaviour(chk, model or Model(kind), partial, steps, hits, cfg, mirror=True)
   return r
+
+
+def action_counts(chk, cfg: str) -> Dict[str, int]:
+  """Number of transitions per action in the (small) state graph of `cfg`."""
+  _, edges, _, r = tlc.dump_graph('TypedTree', cfg, name=f'c03-graph-{cfg[:-4]}', timeout=300)
+  chk.add_tlc(r, count_states=False)
+  out: Dict[str, int] = {}
+  for _, _, a, _ in edges:
+    out[a] = out.get(a, 0) + 1
+  return out
+
+
+def replay_file(chk, path: str) -> None:
+  """Re-executes the behaviour stored in a replay file (states as TLC produced them) on the real code."""
+  rec = json.load(open(path))
+  d = rec['detail']
+  steps = [tlc.Step('replay', [], dict(b)) for b in d['behaviour']]
+  hits: Dict[str, int] = {}
+  replay_behaviour(chk, Model(d['kind']), bool(d['partial_ctor']), steps, hits, d.get('cfg', 'replay'),
+                   mirror=bool(d.get('mirror')))
+  chk.notes['action_outcome_hits'] = hits
+  chk.states = max(chk.states, len(steps))
+  chk.transitions = max(chk.transitions, len(steps) - 1)
